@@ -157,3 +157,33 @@ def c15_m_rfc3339_writer_ok(o):
     o.reachable("negative_year", y.e < 0)
     o.reachable("leap_second", tf >= G)
     o.claim("writer_returns_ok", ok)
+
+
+@obligation(prop="C15", tier="quick", timeout=900, features="std,serde", probe="serde_datetime_total", also=("C20",),
+            desc="Serialize for DateTime<FixedOffset> (RFC 3339 string form): the Display adapter the serializer hands to collect_str formats EVERY UTC date-time at EVERY offset without panicking and returns Ok, including the first and last day where the wall clock lies in the headroom beyond MIN/MAX (finding F17 on the original tree: it used the panicking naive_local())",
+            bounds="all dates x all times of day x all offsets in (-24h, 24h); the Formatter sink is a contract that returns Ok; write_rfc3339 executed (month()/day() through their range contract)",
+            outside="the serializer framework (collect_str of the concrete Serializer), the text produced (C10)")
+def c15_m_serde_datetime_total(o):
+    contracts(o)
+    writer_sink_contracts(o)
+    o.summarize_raw(r"Formatter(::)?<'_>(::| as std::fmt::Write>::| as Write>::)write_(char|str|fmt)$", lambda ex, st, a: (st, OKR()))
+
+    def md_contract(lo, hi, nm):
+        def f(ex, st, a):
+            v = ex.fresh(nm)
+            ex.side.append(z3.And(v >= lo, v <= hi))
+            return st, IntV(v, "u32")
+        return f
+    o.summarize_raw(r"^<NaiveDate as Datelike>::month$", md_contract(1, 12, "month"))
+    o.summarize_raw(r"^<NaiveDate as Datelike>::day$", md_contract(1, 31, "day"))
+    # write_rfc3339 is executed here (the generic contract of `contracts` is for the String instance only)
+    o.ex.raw_summaries = [(rx, fn) for rx, fn in o.ex.raw_summaries if "write_rfc3339" not in rx]
+    dt, y, d, ts, off = dt_input(o)
+    wrapper = Agg("struct", "FormatIso8601", [o.ref(dt)])
+    r = o.call_named(r"^datetime::serde::<impl at [^>]*>::serialize::<impl at [^>]*>::fmt$", o.ref(wrapper), OpaqueV("formatter"), name="fmt")
+    ok = r.disc == 0
+    o.flat = [z3.If(ok, 1, 0)]
+    o.no_panic()
+    o.reachable("headroom_after_max", z3.And(y.e == c03.MAXY, d.e == 365, ts + off.e >= DAY))
+    o.reachable("headroom_before_min", z3.And(y.e == c03.MINY, d.e == 1, ts + off.e < 0))
+    o.claim("display_returns_ok", ok)
